@@ -22,14 +22,22 @@ import (
 const verifRoot = "/verif"
 
 type FuncClaim struct {
-	Pkg    string   `json:"pkg"`
-	Name   string   `json:"name"`
-	Skip   []string `json:"skip,omitempty"`   // obligation-name substrings not claimed (reason in Note)
-	Only   []string `json:"only,omitempty"`   // if set: only obligation names containing one of these
-	Sweep  bool     `json:"sweep,omitempty"`  // zero-annotation safety sweep: no contract needed
-	Replay string   `json:"replay,omitempty"` // in-package test that replays a model (VERIF_INPUT)
-	Search string   `json:"search,omitempty"` // in-package test that searches a small scope for a failing input
-	Note   string   `json:"note,omitempty"`
+	Pkg       string   `json:"pkg"`
+	Name      string   `json:"name"`
+	Skip      []string `json:"skip,omitempty"`       // obligation-name substrings not claimed (reason in Note)
+	Only      []string `json:"only,omitempty"`       // if set: only obligation names containing one of these
+	Sweep     bool     `json:"sweep,omitempty"`      // zero-annotation safety sweep: no contract needed
+	Replay    string   `json:"replay,omitempty"`     // in-package test that replays a model (VERIF_INPUT)
+	Search    string   `json:"search,omitempty"`     // in-package test that searches a small scope for a failing input
+	SearchPkg string   `json:"search_pkg,omitempty"` // package the search test lives in, if not the function's own
+	Note      string   `json:"note,omitempty"`
+}
+
+func (fc FuncClaim) searchPkg() string {
+	if fc.SearchPkg != "" {
+		return fc.SearchPkg
+	}
+	return fc.Pkg
 }
 
 type BoundedSpec struct {
@@ -262,7 +270,7 @@ func cmdCheck(args []string) int {
 			run.downgraded = append(run.downgraded, fmt.Sprintf("%s: contract binds only in part (%s); skipped as undecided: %s", qn, err.Error(), strings.Join(vc2.skipped, "; ")))
 			run.lenient[qn] = true
 			if fc.Search != "" {
-				out, failing, _ := run.goTest(fc.Pkg, fc.Search, "", 0)
+				out, failing, _ := run.goTest(fc.searchPkg(), fc.Search, "", 0)
 				if failing != "" && run.onlyKnownFailures(fc.Search, out) == nil {
 					path := run.writeReplay(qn+"/shape", map[string]interface{}{"obligation": qn + "/shape", "reason": err.Error(), "search_test": fc.Search, "failing_input": json.RawMessage(failing), "test_output": tail(out, 4000), "confirmed": true})
 					run.violation(path, "")
@@ -456,7 +464,7 @@ func (run *checkRun) shapeMismatch(fc FuncClaim, qn, why string) {
 		run.partial[qn] = true
 	}
 	if fc.Search != "" {
-		out, failing, _ := run.goTest(fc.Pkg, fc.Search, "", 0)
+		out, failing, _ := run.goTest(fc.searchPkg(), fc.Search, "", 0)
 		if failing != "" && run.onlyKnownFailures(fc.Search, out) == nil {
 			path := run.writeReplay(qn+"/shape", map[string]interface{}{"obligation": qn + "/shape", "reason": why, "search_test": fc.Search, "failing_input": json.RawMessage(failing), "test_output": tail(out, 4000), "confirmed": true})
 			run.violation(path, "")
@@ -534,13 +542,13 @@ func (run *checkRun) failObligation(o *Obligation, r SolveResult) {
 		}
 	}
 	if fc != nil && fc.Search != "" {
-		out, failing, _ := run.goTest(fc.Pkg, fc.Search, "", 0)
+		out, failing, _ := run.goTest(fc.searchPkg(), fc.Search, "", 0)
 		rec["search_test"] = fc.Search
 		rec["search_output"] = tail(out, 3000)
 		if failing != "" {
 			rec["failing_input"] = json.RawMessage(failing)
 			rec["confirmed"] = true
-			rec["replay_cmd"] = run.goTestCmd(fc.Pkg, fc.Search, "")
+			rec["replay_cmd"] = run.goTestCmd(fc.searchPkg(), fc.Search, "")
 			path := run.writeReplay(o.Name, rec)
 			run.violation(path, "obligation="+o.Name)
 			return
